@@ -358,6 +358,13 @@ func (p *Prover) ival(v ssa.Value, tlo, thi int64) (int64, int64) {
 				return 0, inf
 			}
 		}
+		// documented non-negative results of the standard library's length helpers
+		if f := x.Call.StaticCallee(); f != nil && f.Pkg != nil {
+			switch f.Pkg.Pkg.Path() + "." + f.Name() {
+			case "encoding/hex.EncodedLen", "encoding/hex.DecodedLen", "encoding/base64.EncodedLen", "encoding/base64.DecodedLen", "unicode/utf8.RuneCountInString", "unicode/utf8.RuneCount":
+				return 0, inf
+			}
+		}
 		return tlo, thi
 	}
 	return tlo, thi
